@@ -132,8 +132,14 @@ def r08_1(ctx: Ctx) -> None:
     g = CFG(f)
     link = [c for c in calls(f) if txt(c.func) == "self._link_cds_to_parent"]
     ins = [c for c in calls(f) if txt(c.func) == "self._cds_features.insert"]
-    ok = len(link) == 1 and len(ins) == 1 and g.postdominates(g.n(link[0]), g.n(ins[0])) and \
-        "bisect.bisect_left(self._cds_features, cds_feature)" in txt(f)
+    ok = len(link) == 1 and len(ins) == 1 and g.postdominates(g.n(link[0]), g.n(ins[0]))
+    if ok:
+        from ..flow import inline_reaching as _resolve
+        gene = f.args.args[1].arg
+        index = _resolve(g, ins[0], ins[0].args[0]) if ins[0].args else None
+        ok = isinstance(index, ast.Call) and txt(index.func) in ("bisect.bisect_left", "bisect_left", "bisect.bisect_right", "bisect_right",
+                                                                 "bisect.bisect") \
+            and [txt(a) for a in index.args] == ["self._cds_features", gene] and len(ins[0].args) == 2 and txt(ins[0].args[1]) == gene
     ctx.ob("R08.1", REC, f, "Record.add_cds_feature", "linker reached", ok,
            "every gene inserted (at its bisection point) is linked to its parents", form="")
     dirty = [n for n in walk_local(f) if isinstance(n, ast.Assign) and txt(n.targets[0]) == "self._cds_cache_dirty"
